@@ -54,13 +54,15 @@ def run(ctx: RuleContext):
 
 def _bind_discipline(ctx):
     n0 = len(ctx.findings)
-    check_bind_if_absent(ctx)
-    check_axis_table(ctx)
-    for f in ctx.findings[n0:]:
-        f.rule = "C02.4"
-    for o in ctx.obligations:
-        if o.rule in ("C01.5", "C01.2"):
-            o.rule = "C02.4"
+    try:
+        check_bind_if_absent(ctx)
+        check_axis_table(ctx)
+    finally:
+        for f in ctx.findings[n0:]:
+            f.rule = "C02.4"
+        for o in ctx.obligations:
+            if o.rule in ("C01.5", "C01.2"):
+                o.rule = "C02.4"
 
 
 def _rollback(ctx, r):
@@ -68,13 +70,15 @@ def _rollback(ctx, r):
     sites = c04.find_sites(ctx, r)
     ctx.counters["rollback_sites"] = len(sites)
     ctx.floor("C02.5", "rollback_sites", 2)
-    for s in sites:
-        c04.check_site(ctx, r, s)
-    for f in ctx.findings[n0:]:
-        f.rule = "C02.5"
-    for o in ctx.obligations:
-        if o.rule.startswith("C04."):
-            o.rule = "C02.5"
+    try:
+        for s in sites:
+            c04.check_site(ctx, r, s)
+    finally:
+        for f in ctx.findings[n0:]:
+            f.rule = "C02.5"
+        for o in ctx.obligations:
+            if o.rule.startswith("C04."):
+                o.rule = "C02.5"
 
 
 def check_one_context(ctx, r):
